@@ -58,41 +58,47 @@ COLOR_STRS = ("red", "tab:blue", "#00aa55", "k", "orange", "purple")
 
 def plan(tier):
     if tier == "quick":
-        return {"draw": 200, "layout": 250}
-    return {"draw": 40000, "layout": 48000}
+        return {"draw": 200, "layout": 400}
+    return {"draw": 32000, "layout": 64000}
 
 
 def floors(tier):
-    q = tier == "quick"
-    f = {f"fn:{n}": (100 if q else 15000) for n in LAYOUTS}
+    """Fractions of the planned case counts (expected values are 1.5x - 3x higher; the shares that matter most are fixed by idx, not drawn)."""
+    p = plan(tier)
+    nd, nl = p["draw"], p["layout"]
+    f = {f"fn:{n}": int(0.95 * nl) for n in LAYOUTS}
     f.update({
-        "fn:edge_positions_from_barycenters": 150 if q else 20000,
-        "barycenter:DiHypergraph": 25 if q else 4000,
-        "barycenter:edges-checked": 400 if q else 60000,
-        "fn:draw": 250 if q else 35000,
-        "fn:draw_nodes": 250 if q else 35000,
-        "fn:draw_hyperedges": 120 if q else 18000,
-        "fn:draw_simplices": 60 if q else 9000,
-        "draw:Hypergraph": 50 if q else 7000,
-        "draw:SimplicialComplex": 25 if q else 3500,
-        "geometry:node-offsets": 500 if q else 70000,
-        "geometry:lines": 400 if q else 60000,
-        "geometry:polygons": 400 if q else 60000,
-        "draw:pos=None": 15 if q else 2500,
+        "fn:edge_positions_from_barycenters": int(1.2 * nl),
+        "barycenter:DiHypergraph": int(0.3 * nl),
+        "barycenter:edges-checked": 4 * nl,
+        "layout-has:n=0": nl // 40,
+        "layout-has:n=1": nl // 20,
+        "layout-has:edgeless": nl // 40,
+        "fn:draw": int(2.5 * nd),
+        "fn:draw_nodes": int(2.5 * nd),
+        "fn:draw_hyperedges": int(1.6 * nd),
+        "fn:draw_simplices": int(0.8 * nd),
+        "draw:Hypergraph": int(0.55 * nd),
+        "draw:SimplicialComplex": int(0.28 * nd),
+        "geometry:node-offsets": 5 * nd,
+        "geometry:lines": 5 * nd,
+        "geometry:polygons": 5 * nd,
+        "draw:pos=None": int(0.3 * nd),
+        "container:list": int(0.6 * nd),
+        "container:array": int(0.6 * nd),
+        "container:dict": int(0.5 * nd),
+        "draw-has:isolated": int(0.08 * nd),
+        "draw-has:singleton": int(0.15 * nd),
+        "draw-has:empty-edge": int(0.06 * nd),
+        "draw-has:multi-edge": int(0.1 * nd),
     })
     for s in STYLES:
-        f[f"style:{s}"] = 200 if q else 30000
-    for c in ("list", "array", "dict"):
-        f[f"container:{c}"] = 40 if q else 6000
+        f[f"style:{s}"] = int(2.5 * nd)
     for m in ("None", "<max", ">=max"):
-        f[f"max_order:{m}"] = 60 if q else 9000
+        f[f"max_order:{m}"] = int(0.8 * nd)
     for k in ("int", "gap", "str"):
-        f[f"draw-labels:{k}"] = 20 if q else 3000
-        f[f"layout-labels:{k}"] = 25 if q else 4000
-    for h in ("isolated", "singleton", "empty-edge", "multi-edge"):
-        f[f"draw-has:{h}"] = 15 if q else 2500
-    for h in ("n=0", "n=1", "edgeless"):
-        f[f"layout-has:{h}"] = 3 if q else 500
+        f[f"draw-labels:{k}"] = int(0.2 * nd)
+        f[f"layout-labels:{k}"] = int(0.2 * nl)
     return f
 
 
